@@ -244,19 +244,23 @@ def gen_asm_source(rng, sections=None, random_bytes_p=0.35):
                         body.append(f"\t.zero {rng.choice([8, 16, 40, 64])}")  # objdump folds such a run into a '...' line
         out += body
         meta.append({"name": sec, "raw": raw, "data": is_data})
+    if rng.random() < 0.05:
+        # a property note of a type objdump does not know: accepted (exit 0), with a warning on stderr
+        out += ['\t.section .note.gnu.property,"a",@note', "\t.align 8", "\t.long 4", "\t.long 16", "\t.long 5", '\t.asciz "GNU"',
+                f"\t.long 0x{rng.randrange(0x10000, 0x7fffffff):x}", "\t.long 4", "\t.long 0", "\t.long 0"]
     return "\n".join(out) + "\n", meta
 
 
-def assemble(src: str, bits=64) -> bytes | None:
+def assemble(src: str, bits=64, encoding="utf-8") -> bytes | None:
     """GNU as on `src`; returns the ELF object bytes, or None if as rejects it."""
-    key = util.digest([src, bits])
+    key = util.digest([src, bits, encoding])
     if key in _AS_CACHE:
         return _AS_CACHE[key]
     d = os.path.join(util.scratch_root(), f"as-{os.getpid()}")
     os.makedirs(d, exist_ok=True)
     sp, op = os.path.join(d, "in.s"), os.path.join(d, "out.o")
-    with open(sp, "w") as fh:
-        fh.write(src)
+    with open(sp, "wb") as fh:
+        fh.write(src.encode(encoding, "replace"))
     try:
         os.remove(op)
     except FileNotFoundError:
@@ -279,7 +283,12 @@ def harness_objdump(path: str, sections=None, style="att", cwd=None):
         argv += ["-j", s]
     argv.append(path)
     p = subprocess.run(argv, stdout=subprocess.PIPE, stderr=subprocess.PIPE, cwd=cwd)
+    global LAST_OBJDUMP_STDOUT
+    LAST_OBJDUMP_STDOUT = p.stdout  # the bytes exactly as objdump printed them
     return p.returncode, p.stdout.decode("utf-8", "replace"), p.stderr.decode("utf-8", "replace"), argv
+
+
+LAST_OBJDUMP_STDOUT = b""
 
 
 # ----------------------------------------------------- harness-side decoding
